@@ -53,6 +53,40 @@ def kernFeatures : List Feature := [⟨"kern", [0]⟩]
 def ligMatch (group : List Lig) (next : List Nat) : Option Lig :=
   group.find? fun l => l.rest.isPrefixOf next
 
+/-! ### SPEC of the ligature clause (independent of ligatures.go and of the order of its table) -/
+
+/-- The standard f-ligatures: Unicode "Alphabetic Presentation Forms" U+FB00 LATIN SMALL LIGATURE FF,
+U+FB01 FI, U+FB02 FL, U+FB03 FFI, U+FB04 FFL, each with the letters it stands for. -/
+def specLigs : List (Nat × List Nat) :=
+  [(0xFB00, [102, 102]), (0xFB01, [102, 105]), (0xFB02, [102, 108]),
+   (0xFB03, [102, 102, 105]), (0xFB04, [102, 102, 108])]
+
+/-- the ligatures the font contains: ligature character and all letters mapped; as (component glyphs,
+ligature glyph) -/
+def specCands (cmap : Nat → Nat) : List (List Nat × Nat) :=
+  specLigs.filterMap fun (c, ls) =>
+    if cmap c != 0 && ls.all (fun l => cmap l != 0) then some (ls.map cmap, cmap c) else none
+
+/-- the candidate with the most components among those matching at the head of `gids` (the earlier one
+on equal length) -/
+def specBest (cands : List (List Nat × Nat)) (gids : List Nat) : Option (List Nat × Nat) :=
+  (cands.filter fun c => c.1.isPrefixOf gids).foldl
+    (fun best c => match best with
+      | none => some c
+      | some b => if b.1.length < c.1.length then some c else some b) none
+
+/-- "Gets the standard f-ligatures it contains": scanning left to right, the LONGEST ligature whose
+components are the next glyphs replaces them (texts concatenated); otherwise the glyph stays. -/
+def specLigApply (cands : List (List Nat × Nat)) : Nat → List Glyph → List Glyph
+  | 0, l => l
+  | _, [] => []
+  | fuel + 1, g :: r =>
+    match specBest cands ((g :: r).map (·.gid)) with
+    | none => g :: specLigApply cands fuel r
+    | some c =>
+      let k := c.1.length - 1
+      ⟨c.2, g.text ++ (r.take k).flatMap (·.text), g.adv⟩ :: specLigApply cands fuel (r.drop k)
+
 /-- `Gsub4_1.apply` along a sequence when no glyph is ignored (lookup flags 0): at each position the
 first matching ligature of the covered glyph's group replaces the matched glyphs (text concatenated);
 matching continues after the replacement. Fuel = length of the sequence. -/
